@@ -1,5 +1,6 @@
 """C10 - server handler lifecycle: connect once, then that client's messages, then disconnect once."""
 import re
+import random
 import collections
 
 from checks.common import UdpCheck, Monitor, swarm_cfg, PoolGuard
@@ -106,6 +107,11 @@ class C10(UdpCheck):
                     plan.append({"op": "connect", "c": c, "t": round(t, 4), "cb": rng.random() < 0.5, "reuse": rng.random() < 0.4})  # reconnect without disconnect
         for j in range(rng.choice([0, 0, 1, 2])):
             plan.append({"op": "sdisconnect", "c": rng.randrange(n), "t": round(1.0 + rng.random() * (dur - 2), 4)})
+        rng3 = random.Random("c10-block|%s" % (rng.getstate()[1][:3],))       # (does not consume from the main stream)
+        if rng3.random() < 0.12:
+            # a connected client's address is block-listed at run time: its datagrams are discarded from then on, the
+            # handler still gets its disconnect (by silence)
+            plan.append({"op": "sblock", "c": rng3.randrange(n), "t": round(2.0 + rng3.random() * max(0.5, dur - T - 4.0), 4)})
         for j in range(rng.choice([0, 1, 3])):
             plan.append({"op": "ssend", "c": rng.randrange(n), "t": round(1.0 + rng.random() * (dur - 2), 4), "len": 30,
                          "retry": rng.choice([0, -1]), "cb": False, "api": "send"})
